@@ -129,6 +129,7 @@ package f3
 //@ func (*gpbftRunner).BroadcastMessage
 //@   property C12
 //@   requires filterOK(&h.equivFilter)
+//@   requires h.wal.active.file == nil ==> h.wal.active.maxEpoch == 0
 //@   modifies auto
 //@   maypanic
 //@   at Append 1
